@@ -337,6 +337,12 @@ func concretise(class string, me string, seq int, rng *rand.Rand) []byte {
 		return peer.EncodeData(5, me, "victim", "x", "unreach", []byte(`{"FromNode":5,"ToNode":[],"Problem":{}}`))
 	case "data_to_unreach_valid":
 		return peer.EncodeData(5, me, "victim", "unreach", "unreach", []byte(`{"FromNode":"victim","ToNode":"q","FromService":"zz","ToService":"a","Problem":"service unknown"}`))
+	case "data_truncated_known_hashes":
+		// a data message cut inside its fixed 36-byte header, with node hashes the receiver knows
+		b := peer.EncodeData(5, me, "victim", "src", "ping", nil)
+		return b[:28+rng.Intn(8)]
+	case "data_header_only_known_hashes":
+		return peer.EncodeData(5, me, "victim", "src", "ping", nil)[:36]
 	case "data_to_unreach_for_live_socket":
 		return peer.EncodeData(5, me, "victim", "unreach", "unreach", []byte(`{"FromNode":"victim","ToNode":"q","FromService":"probe","ToService":"a","Problem":"service unknown"}`))
 	case "data_to_unreach_null":
